@@ -242,12 +242,6 @@ Definition roundtrip_header_ok (c : ccase) : bool :=
      | _, _ => false
      end.
 
-Definition roundtrip_typed_ok (c : ccase) : bool :=
-  match sent_args c, c_typed c with
-  | Some (_, args), Some vals => list_eqb jb_eqb args vals
-  | _, _ => false
-  end.
-
 (** Go maps have no order: objects decoded into [any] are compared with their keys sorted. *)
 Fixpoint norm_b (b : jb) : jb :=
   match b with
@@ -260,6 +254,32 @@ Definition roundtrip_any_ok (c : ccase) : bool :=
   if c_skip_any c then true else
   match sent_args c, c_anyd c with
   | Some (_, args), Some vals => list_eqb jb_eqb (map norm_b args) vals
+  | _, _ => false
+  end.
+
+(** What a parameter of type [t] shows of the sent shape: [any] cells hold Go maps (no order). *)
+Fixpoint view_ty (t : ty) (b : jb) : jb :=
+  match t with
+  | TAny | TMapAny => norm_b b
+  | TPtr t' => view_ty t' b
+  | TSlice t' => match b with BArr l => BArr (map (view_ty t') l) | _ => b end
+  | TStruct fs =>
+    match b with
+    | BObj kvs => BObj (map (fun '(k, t') => (k, match lookup k kvs with Some x => view_ty t' x | None => BNull end)) fs)
+    | _ => b
+    end
+  | _ => b
+  end.
+
+Definition roundtrip_typed_ok (c : ccase) : bool :=
+  match sent_args c, c_typed c with
+  | Some (_, args), Some vals =>
+    list_eqb jb_eqb
+      ((fix go (ts : list ty) (l : list jb) : list jb :=
+          match ts, l with
+          | t :: ts', x :: l' => view_ty t x :: go ts' l'
+          | _, _ => l
+          end) (c_tys c) args) vals
   | _, _ => false
   end.
 
